@@ -347,7 +347,10 @@ class AgentWorld(object):
         path = path.replace('<ip>', self.cfg['remote_addr'])
         kw = {'headers': headers}
         if json is not None:
-            kw['json'] = json
+            # the body exactly as a client would write it: Flask's test client would sort the members of every object
+            import json as _json
+            kw['data'] = _json.dumps(json)
+            kw['content_type'] = 'application/json'
         r = AgentWorld._client.open(path, method=method, **kw)
         body = r.get_json(silent=True)
         if raw:
